@@ -613,6 +613,12 @@ class Kernel:
         try:
             try:
                 rec.inst.receiveMessage(msg, sender)
+            except SystemExit:
+                # sys.exit() inside a message handler that nobody catches ends the actor's process: no retry, no poison message - the parent
+                # hears ChildActorExited (multiprocess bases)
+                self.handler_errors.append((rec.addr.label, cls_name, "SystemExit escaped the handler: actor process ends"))
+                self.kill(rec.addr)
+                return
             except Exception:
                 if not isinstance(msg, ta.ActorExitRequest):
                     self.handler_errors.append((rec.addr.label, cls_name, traceback.format_exc()[-800:]))
